@@ -66,7 +66,7 @@ Definition c15_fs : gmap path memfile :=
   {[ [] := mkMemFile Dir [] TAuto None None;
      [[97%N]] := mkMemFile Dir [] TAuto None None;
      [[97%N]; [98%N]] := mkMemFile File [1%N] TAuto None None ]}.
-Definition c15_store : store := mkStore [BMem c15_fs] [] [] None.
+Definition c15_store : store := mkStore [BMem c15_fs] [] [] None IoOff.
 Definition c15_v : vfs := mkVfs 0 (fun c => Call (BFs 0 c) Ret).
 Definition c15_oracle : list bool := [false; true; false; true; false; true; false; false; false; true; false].
 
